@@ -21,7 +21,7 @@ import (
 
 func init() { register("C09", runC09) }
 
-var c09Events = []string{"S.connect(clean0)", "S.subscribe(t,q1)", "S.subscribe($share/g/t,q2,id7)", "S.unsubscribe(t)", "P.connect(clean0)", "P.publish(q1)", "P.publish(q2)", "P.pubrel", "S.ack-step", "S.close", "two clients without session expiry ('a0', 'm0') connect and stay"}
+var c09Events = []string{"S.connect(clean0)", "S.subscribe(t,q1)", "S.subscribe($share/g/t,q2,id7)", "S.unsubscribe(t)", "P.connect(clean0)", "P.publish(q1)", "P.publish(q2)", "P.pubrel", "S.ack-step", "S.close", "two clients without session expiry ('a0', 'm0') connect and stay", "S.subscribe(t,q2,id9,no-local): renews the options of t"}
 
 const c09Sub, c09Pub = "sub1", "a1"
 
@@ -29,6 +29,9 @@ type c09SubOp struct {
 	filter   string
 	sub      bool
 	req, ack int64
+	qos      byte
+	id       uint32
+	noLocal  bool
 }
 
 type c09Msg struct {
@@ -41,6 +44,7 @@ type c09Msg struct {
 	pubcomp  int64 // PUBCOMP written by the broker
 	subDone  int64 // subscriber sent its final ack (PUBACK / PUBCOMP)
 	subRec   int64 // subscriber sent PUBREC (QoS2)
+	subPid   uint16 // packet identifier of the delivery the subscriber answered with PUBREC
 }
 
 type c09Hist struct {
@@ -163,18 +167,21 @@ func c09Phase1(c *explore.Ctx, seq []int, cas func() any) (*c09Hist, int) {
 				}
 				sOn = true
 				pending = nil
-			case 1, 2:
+			case 1, 2, 11:
 				if !sOn {
 					valid = false
 					break
 				}
-				f, q, id := "t", byte(1), uint32(0)
+				f, q, id, nl := "t", byte(1), uint32(0), false
 				if e == 2 {
 					f, q, id = "$share/g/t", 2, 7
 				}
-				op := c09SubOp{filter: f, sub: true, req: vsched.Stamp()}
+				if e == 11 {
+					q, id, nl = 2, 9, true
+				}
+				op := c09SubOp{filter: f, sub: true, req: vsched.Stamp(), qos: q, id: id, noLocal: nl}
 				pid := S.PID()
-				p := &refmqtt.Packet{Type: refmqtt.SUBSCRIBE, PacketID: pid, Subs: []refmqtt.Sub{{Filter: f, QoS: q}}}
+				p := &refmqtt.Packet{Type: refmqtt.SUBSCRIBE, PacketID: pid, Subs: []refmqtt.Sub{{Filter: f, QoS: q, NoLocal: nl}}}
 				if id != 0 {
 					p.Props = &refmqtt.Props{SubIDs: []uint32{id}}
 				}
@@ -256,6 +263,7 @@ func c09Phase1(c *explore.Ctx, seq []int, cas func() any) (*c09Hist, int) {
 				case !d.recd:
 					if d.m != nil {
 						d.m.subRec = vsched.Stamp()
+						d.m.subPid = d.pid
 					}
 					S.Send(&refmqtt.Packet{Type: refmqtt.PUBREC, PacketID: d.pid})
 					d.recd = true
@@ -423,8 +431,10 @@ func c09Phase2(c *explore.Ctx, h *c09Hist, k int, cas0 func() any, resend bool) 
 		}
 		// 2. subscriptions of sub1
 		have := map[string]bool{}
+		haveOpts := map[string]string{}
 		w.Srv.SubscriptionService().Iterate(func(cid string, s *gmqtt.Subscription) bool {
 			have[cid+"|"+s.GetFullTopicName()] = true
+			haveOpts[cid+"|"+s.GetFullTopicName()] = fmt.Sprintf("qos=%d id=%d no-local=%v", s.QoS, s.ID, s.NoLocal)
 			return true
 		}, subscription.IterationOptions{Type: subscription.TypeAll})
 		filters := map[string]bool{}
@@ -471,6 +481,15 @@ func c09Phase2(c *explore.Ctx, h *c09Hist, k int, cas0 func() any, resend bool) 
 				c.Violate("subscriptions-survive", cl, cas(), fmt.Sprintf("%s subscribed=%v", f, last.sub), fmt.Sprintf("subscribed=%v all=%v", got, keysB(have)))
 				return
 			}
+			if last.sub {
+				// ... with the options of the last acknowledged SUBSCRIBE, provided no later
+				// SUBSCRIBE for the filter was under way at the crash (checked above)
+				want := fmt.Sprintf("qos=%d id=%d no-local=%v", last.qos, last.id, last.noLocal)
+				if g := haveOpts[c09Sub+"|"+f]; g != want {
+					c.Violate("subscriptions-survive", "restored-subscription-has-other-options-than-the-last-acknowledged-subscribe", cas(), f+" "+want, g)
+					return
+				}
+			}
 		}
 		// 4. QoS2 identifiers awaiting PUBREL: resend, must get PUBREC, must not be forwarded again
 		var resent []*c09Msg
@@ -514,7 +533,11 @@ func c09Phase2(c *explore.Ctx, h *c09Hist, k int, cas0 func() any, resend bool) 
 			}
 			vsched.Settle()
 			copies := map[string]map[uint16]bool{}
+			pubrels := map[uint16]bool{}
 			for _, r := range S.Recv() {
+				if r.P != nil && r.P.Type == refmqtt.PUBREL {
+					pubrels[r.P.PacketID] = true
+				}
 				if r.P != nil && r.P.Type == refmqtt.PUBLISH {
 					pl := string(r.P.Payload)
 					if copies[pl] == nil {
@@ -536,7 +559,8 @@ func c09Phase2(c *explore.Ctx, h *c09Hist, k int, cas0 func() any, resend bool) 
 				}
 				done := m.subDone != 0 && m.subDone < crash
 				if subscribed && before(m.pubAck) && !done {
-					if len(copies[m.payload]) == 0 {
+					// a delivery the subscriber had answered with PUBREC continues with PUBREL
+					if len(copies[m.payload]) == 0 && !(m.subRec != 0 && m.subRec < crash && pubrels[m.subPid]) {
 						cl := fmt.Sprintf("acknowledged-qos%d-message-not-redelivered", m.qos)
 						if m.subRec != 0 && m.subRec < crash {
 							cl += "-after-pubrec"
@@ -681,7 +705,7 @@ func c09Run(c *explore.Ctx, seq []int) int {
 
 func runC09(c *explore.Ctx) {
 	c.Level = "fault_enumeration"
-	c.Rule = "E4: client histories (two persistent v5 sessions, optionally two connected clients without session expiry whose records sit next to them in the store: subscribe incl. a shared filter with subscription id, unsubscribe, QoS1/QoS2 publishes, PUBREL, subscriber ack steps, disconnect/reconnect) are enumerated as a tree (directed prefix + depth) on a real in-process broker using the redis persistence backend over an in-process RESP server that journals every write command with a logical stamp. For EVERY prefix of the journal (a crash between two storage commands) the store is rebuilt, a fresh broker is started on it, and checked: start-up succeeds; sessions whose CONNACK was sent before the crash exist under their id; subscriptions equal the SUBACK/UNSUBACK-acknowledged ones; publisher-acknowledged, subscriber-unacknowledged QoS>0 messages are redelivered on Clean Start 0; QoS2 ids awaiting PUBREL are still recognised, their flows complete on the restarted broker (PUBREL -> PUBCOMP) and a new message under the completed identifier is forwarded. E3+E4: two (thorough three) short histories are also run under every schedule with <=1 deviation and every crash point of each such execution is evaluated the same way (a storage command and the acknowledgement that depends on it are issued by different goroutines). evaluations = restarted brokers; distinct_nontrivial = journal commands (distinct crash points)."
+	c.Rule = "E4: client histories (two persistent v5 sessions, optionally two connected clients without session expiry whose records sit next to them in the store: subscribe incl. a shared filter with subscription id, unsubscribe, QoS1/QoS2 publishes, PUBREL, subscriber ack steps, disconnect/reconnect) are enumerated as a tree (directed prefix + depth) on a real in-process broker using the redis persistence backend over an in-process RESP server that journals every write command with a logical stamp. For EVERY prefix of the journal (a crash between two storage commands) the store is rebuilt, a fresh broker is started on it, and checked: start-up succeeds; sessions whose CONNACK was sent before the crash exist under their id; subscriptions equal the SUBACK/UNSUBACK-acknowledged ones, with the options (QoS, subscription identifier, No Local) of the last acknowledged SUBSCRIBE (a filter can be re-subscribed with other options); publisher-acknowledged, subscriber-unacknowledged QoS>0 messages are redelivered on Clean Start 0; QoS2 ids awaiting PUBREL are still recognised, their flows complete on the restarted broker (PUBREL -> PUBCOMP) and a new message under the completed identifier is forwarded. E3+E4: two (thorough three) short histories are also run under every schedule with <=1 deviation and every crash point of each such execution is evaluated the same way (a storage command and the acknowledgement that depends on it are issued by different goroutines). evaluations = restarted brokers; distinct_nontrivial = journal commands (distinct crash points)."
 	c.Trusted = []string{"respd: fidelity to redis for the 14 commands gmqtt issues (implemented from the command reference; real redis is not installed)", "vsched default schedule, logical stamps ordering storage commands and packets"}
 	c.Assumptions = []string{"redis executes each command atomically, so crash points are command boundaries (pipelined commands are split)", "an operation whose acknowledgement had not been sent before the crash may be in either state"}
 	if rc := replayCase(c); rc != nil {
